@@ -178,9 +178,34 @@ def gen_native():
     else:
         raise GenError("ink_list.rs: how copies remember origin names is not recognised")
 
+    # how ties between list entries are resolved
+    ld = strip_comments(vlib.repo_file("runtime/src/list_definition.rs"))
+    goi, gmx, gmn = (ws(fn_body(il, f)) for f in ("get_ordered_items", "get_max_item", "get_min_item"))
+    giv = ws(fn_body(ld, "get_item_with_value"))
+    old_tb = ("ifa.1==b.1{a.0.get_origin_name().cmp(&b.0.get_origin_name())}else{a.1.cmp(b.1)}" in goi,
+              "for(k,v)in&self.items{ifmax.is_none()||*v>max.as_ref().unwrap().1{max=Some((k,*v));}}" in gmx,
+              "for(k,v)in&self.items{ifmin.is_none()||*v<min.as_ref().unwrap().1{min=Some((k,*v));}}" in gmn,
+              "for(item_name,value)in&self.item_name_to_values{if*value==val{returnSome(" in giv,
+              "sorted.sort_by(|a,b|b.1.cmp(a.1));" in cl)
+    new_tb = ("ordered.sort_by(|a,b|cmp_entries(*a,*b));" in goi,
+              "self.items.iter().max_by(|a,b|cmp_entries(*a,*b)).map(|(k,v)|(k,*v))" in gmx,
+              "self.items.iter().min_by(|a,b|cmp_entries(*a,*b)).map(|(k,v)|(k,*v))" in gmn,
+              "self.item_name_to_values.iter().filter(|(_,value)|**value==val).map(|(item_name,_)|item_name).min().map(" in giv,
+              "sorted.sort_by(|a,b|cmp_entries(*b,*a));" in cl)
+    if all(old_tb) and not any(new_tb):
+        tie_break = "TieIteration"
+    elif all(new_tb) and not any(old_tb):
+        ce = ws(fn_body(il, "cmp_entries"))
+        if ce != "a.1.cmp(b.1).then_with(||a.0.get_origin_name().cmp(&b.0.get_origin_name()))" \
+                 ".then_with(||a.0.get_item_name().cmp(b.0.get_item_name()))":
+            raise GenError("cmp_entries: not the order value / origin name / item name")
+        tie_break = "TieTotal"
+    else:
+        raise GenError(f"tie-breaking of list entries not recognised (old {old_tb}, new {new_tb})")
+
     L = ["(* GENERATED by tools/gen_native.py from runtime/src/native_function_call.rs, value_type.rs,",
          "   value.rs, story/control_logic.rs, story/mod.rs — do not edit *)",
-         "From Ink.Data Require Import Types IntSem InkList.", ""]
+         "From Ink.Data Require Import Types IntSem.", ""]
     L.append("Definition nop_name (op : nop) : text :=\n  match op with")
     for v in ops:
         L.append(f"  | {NOP[v]} => {coq_text(names[v])}")
@@ -204,8 +229,9 @@ def gen_native():
     L.append("Definition cast_consts : list (text * N) := [" + "; ".join(f"({coq_text(n)}, {v}%N)" for n, v in casts) + "].")
     L.append(f"Definition coerce_initial_dest : N := {dest0}%N.")
     L.append(f"Definition origin_copy_now : origin_copy := {origin_copy}.")
+    L.append(f"Definition tie_break_now : tie_break := {tie_break}.")
     out = "\n".join(L) + "\n"
-    facts = {"native.ops": len(ops), "native.int_sem": sem, "native.valuetype": vt, "native.origin_copy": origin_copy}
+    facts = {"native.ops": len(ops), "native.int_sem": sem, "native.valuetype": vt, "native.origin_copy": origin_copy, "native.tie_break": tie_break}
     return write_if_changed("theories/Gen/NativeGen.v", out), facts
 
 
